@@ -682,6 +682,8 @@ func sqlStrings(w *batcher, s *eng.Session, c charset, strs [][]int, counts map[
 			one(s, c, "nested", cps, "SELECT CONVERT(CONVERT("+l+" USING "+c.Name+") USING utf8mb4)", false),
 		}
 		if c.Name != "binary" {
+			evs = append(evs, one(s, c, "convchars", cps, "SELECT CHAR_LENGTH(CONVERT("+l+" USING "+c.Name+"))", false),
+				one(s, c, "convbytes", cps, "SELECT LENGTH(CONVERT("+l+" USING "+c.Name+"))", false))
 			evs = append(evs, one(s, c, "cast", cps, "SELECT HEX(CAST("+l+" AS CHAR CHARACTER SET "+c.Name+"))", true))
 		}
 		if hasCol {
